@@ -128,7 +128,12 @@ Definition clamp_req (s : store) (q : req) (retention : N) (minISR : Z) : req :=
 Definition readLocalCommitted (s : store) (q : req) (retention : N) (minISR : Z) : list row * N :=
   let committed := committed_of s minISR in
   if negb (q_reverse q) && (committed <? q_from q) then ([], q_from q)
-  else ReadCommitted s (clamp_req s q retention minISR).
+  else
+    let c := clamp_req s q retention minISR in
+    if committed =? 0 then
+      (* nothing is committed: the empty page (fix d06215a91; before it MaxSeq = 0 meant "unbounded") *)
+      ([], if negb (q_reverse c) && (q_from c <? q_min c) then q_min c else q_from c)
+    else ReadCommitted s c.
 
 (* ---- message_reader.go -------------------------------------------------- *)
 
@@ -465,18 +470,11 @@ Definition monotone_ok (pre post : snap) : bool :=
   && (r_local (n_r pre) <=? r_local (n_r post))
   && (r_phys (n_r pre) <=? r_phys (n_r post)).
 
-(* sequences appended with SyncOnce, from the append's observed base offset *)
-Fixpoint sync_seqs (base : N) (flags : list bool) : list N :=
-  match flags with
-  | [] => []
-  | f :: rest => if f then base :: sync_seqs (base + 1) rest else sync_seqs (base + 1) rest
-  end.
+(* sequences appended with SyncOnce, from the append's observed base offset (first new sequence) *)
+Definition sync_seqs (base : N) (sizes : list N) (flags : list bool) : list N :=
+  map row_seq (filter row_sync (new_rows (base - 1) sizes flags)).
 
-(* known finding K1: forward read with FromSeq = 0 while the committed watermark is 0 *)
-Definition k1_shape (pre : snap) (q : req) (minISR : Z) : bool :=
-  negb (q_reverse q) && (q_from q =? 0) && (committed_snap pre minISR =? 0).
-
-(* per step: 0 ok, 1 violation, 2 = K1 *)
+(* per step: 0 ok, 1 violation *)
 Definition step_code (pre : snap) (syncs : list N) (t : step_obs) : N :=
   let post := o_snap t in
   let del := deleted_rows pre post in
@@ -488,7 +486,6 @@ Definition step_code (pre : snap) (syncs : list N) (t : step_obs) : N :=
         let hi := committed_snap pre minISR in
         if negb (match del with [] => true | _ => false end) then 1
         else if forallb (fun m => in_window lo hi (fst m)) msgs then 0
-        else if k1_shape pre q minISR && forallb (fun m => lo <? fst m) msgs then 2
         else 1
     | OSync _ _ _ _ _ retention minISR, RSync _ seqs _ =>
         let lo := boundary_of pre retention in
@@ -504,17 +501,16 @@ Definition step_code (pre : snap) (syncs : list N) (t : step_obs) : N :=
 
 Definition syncs_after (syncs : list N) (t : step_obs) : list N :=
   match o_op t, o_res t with
-  | OAppend _ flags, RAppend _ base _ => sync_seqs base flags ++ syncs
+  | OAppend sizes flags, RAppend _ base _ => sync_seqs base sizes flags ++ syncs
   | _, _ => syncs
   end.
 
-Fixpoint monitor_steps (pre : snap) (syncs : list N) (k1 : bool) (steps : list step_obs) : N :=
+Fixpoint monitor_steps (pre : snap) (syncs : list N) (steps : list step_obs) : N :=
   match steps with
-  | [] => if k1 then 2 else 0
+  | [] => 0
   | t :: rest =>
       match step_code pre syncs t with
-      | 0 => monitor_steps (o_snap t) (syncs_after syncs t) k1 rest
-      | 2 => monitor_steps (o_snap t) (syncs_after syncs t) true rest
+      | 0 => monitor_steps (o_snap t) (syncs_after syncs t) rest
       | _ => 1
       end
   end.
@@ -528,5 +524,5 @@ Definition pure_gate_ok (st : rstate) (through : N) : bool :=
 Definition C10_monitor (c : c10_case) : N :=
   match c with
   | C10Pure st through allowed _ _ => if allowed then (if pure_gate_ok st through then 0 else 1) else 0
-  | C10Hist steps => monitor_steps (snap_of init_sys) [] false steps
+  | C10Hist steps => monitor_steps (snap_of init_sys) [] steps
   end.
